@@ -168,16 +168,27 @@ pub trait Elem: 'static + Clone + Sized + Send + Sync {
     fn intact(&self) -> bool;
 }
 
+// The identity of a value is spread over ALL its bytes: the first min(size, 8) bytes hold tok * MIX
+// (mod 2^(8*that many bytes); MIX is odd, so this is a bijection and small identities have no zero bytes),
+// the remaining bytes a canary derived from it.  A byte moved to the wrong place, or the wrong number of
+// bytes moved, therefore changes what the slot decodes to.
+const MIX: u64 = 0x9E37_79B9_7F4A_7C15;
+const UNMIX: u64 = 0xF1DE_83E1_9937_733D;      // MIX * UNMIX = 1 (mod 2^64)
+#[inline]
+fn low_mask(m: usize) -> u64 { if m >= 8 { u64::MAX } else { (1u64 << (8 * m)) - 1 } }
+#[inline]
+fn canary(v: u64, k: usize) -> u8 { ((v >> (8 * (k % 8))) as u8).wrapping_mul(31).wrapping_add(k as u8) }
 #[inline]
 fn fill(b: &mut [u8], tok: u64) {
     let n = b.len();
-    let le = tok.to_le_bytes();
+    let v = tok.wrapping_mul(MIX) & low_mask(n.min(8));
+    let le = v.to_le_bytes();
     for k in 0..n {
-        b[k] = if k < 8 { le[k] } else { (tok as u8).wrapping_mul(31).wrapping_add(k as u8) };
+        b[k] = if k < 8 { le[k] } else { canary(v, k) };
     }
 }
 #[inline]
-fn tok_of(b: &[u8]) -> u64 {
+fn mixed_of(b: &[u8]) -> u64 {
     let mut le = [0u8; 8];
     for k in 0..b.len().min(8) {
         le[k] = b[k];
@@ -185,10 +196,14 @@ fn tok_of(b: &[u8]) -> u64 {
     u64::from_le_bytes(le)
 }
 #[inline]
+fn tok_of(b: &[u8]) -> u64 {
+    mixed_of(b).wrapping_mul(UNMIX) & low_mask(b.len().min(8))
+}
+#[inline]
 fn check(b: &[u8]) -> bool {
-    let tok = tok_of(b);
+    let v = mixed_of(b);
     for k in 8..b.len() {
-        if b[k] != (tok as u8).wrapping_mul(31).wrapping_add(k as u8) {
+        if b[k] != canary(v, k) {
             return false;
         }
     }
@@ -265,5 +280,7 @@ elem_pair!(E24a8d, W24a8d, 24, 8, true);
 elem_pair!(E24a8n, W24a8n, 24, 8, false);
 elem_pair!(E64a64d, W64a64d, 64, 64, true);
 elem_pair!(E64a64n, W64a64n, 64, 64, false);
+elem_pair!(E136a8d, W136a8d, 136, 8, true);
+elem_pair!(E136a8n, W136a8n, 136, 8, false);
 elem_pair!(E160a32d, W160a32d, 160, 32, true);
 elem_pair!(E160a32n, W160a32n, 160, 32, false);
